@@ -27,7 +27,7 @@ RULE = ("random-content NP1 / NP2.4 recordings (bin and cbin) with spike trains 
 ASSUMPTIONS = ["spike times are sorted; a spike is identified by (sample, peak channel): a unit may hold two spikes on one sample (double detection)",
                "compressed inputs are always given a scratch_dir (see DESIGN.md section 5 C13 harness note)",
                "neighbourhood = sites within 200 um of the peak site in the reader's (sorted) channel order"]
-REQUIRED = {"extractions": 6, "rows_compared": 300, "row_sets_exactly_once": 3, "orders_executed": 6, "loader_checks": 3, "units_counted": 20, "scratch_histories": 2, "caller_headers_with_other_geometry": 1, "headers_announcing_fewer_samples": 1, "decompress_faults_injected": 1}
+REQUIRED = {"extractions": 6, "rows_compared": 300, "row_sets_exactly_once": 3, "orders_executed": 6, "loader_checks": 3, "units_counted": 20, "scratch_histories": 2, "caller_headers_with_other_geometry": 1, "headers_announcing_fewer_samples": 1, "decompress_faults_injected": 1, "large_units_checked": 1}
 CASE_TIMEOUT = 300.0
 MAX_PROCS = 8
 OFF, LEN = 42, 128
@@ -39,6 +39,7 @@ def gen_cases(seed, tier):
     cases += [{"cls": "loky", "seed": seed * 1000 + 300 + i, "counts": ([1, 3, 8] if tier == "quick" else [1, 2, 3, 4, 5, 6, 7, 8]), "_w": 14} for i in range(2 if tier == "quick" else 10)]
     cases += [{"cls": "params", "seed": seed * 1000 + 600 + i, "_w": 4} for i in range(2 if tier == "quick" else 12)]
     cases += [{"cls": "array", "seed": seed * 1000 + 800 + i, "n": 6, "_w": 1} for i in range(4 if tier == "quick" else 60)]
+    cases += [{"cls": "large-unit", "seed": seed * 1000 + 950 + i, "_w": 10} for i in range(1 if tier == "quick" else 4)]
     cases += [{"cls": "scratch-history", "seed": seed * 1000 + 900 + i, "_w": 8} for i in range(2 if tier == "quick" else 24)]
     return cases
 
@@ -324,6 +325,48 @@ def run_case(case):
                     res.exception("extract:exception", e, f"{label} chunk={other}")
             res.sig = f"extract-{rec.kind}-{use_c}-{chunk}-{max_wf}-{case['seed']}"
             res.nontrivial = bool(np.any(np.bincount(((clus - 3) // 2)[(times > OFF) & (times < rec.ns - (LEN - OFF))]) > max_wf))
+        elif cls == "large-unit":
+            # a unit with more waveforms than a 16-bit counter holds (a multi-unit cluster of a long session, a generous max_wf): its rows are numbered
+            # 0..n-1 within the unit like those of any other, and every one of them can be asked for by that number (round 19)
+            kind = ("3B2", "NP2.4")[case["seed"] % 2]
+            ns = int(rng.integers(33300, 34600))
+            rec = G.make(rng, kind=kind, sites=G.draw_sites(rng, kind, 6, "dense"), ns=ns, gains=G.random_gains(rng), content="random", nsync=1)
+            rec.claim = None
+            b = G.write(rec, Path(d) / "rec")
+            lo, hi = OFF, ns - (LEN - OFF)
+            t_big = np.arange(lo + 1, hi)
+            t_small = np.sort(rng.choice(np.arange(lo + 1, hi), 40, replace=False))
+            times = np.r_[t_big, t_small]
+            clus = np.r_[np.full(t_big.size, 7), np.full(t_small.size, 3)]
+            chans = rng.integers(0, rec.n, times.size)
+            o = np.argsort(times, kind="stable")
+            times, clus, chans = times[o], clus[o], chans[o]
+            max_wf = 40000
+            chunk = int(rng.choice([3000, 10000]))
+            label = f"large unit: {kind} 6 sites ns={ns} chunk={chunk} max_wf={max_wf}, unit 7 has {t_big.size} valid spikes"
+            out = d / "out"
+            out.mkdir()
+            try:
+                WE.extract_wfs_cbin(b, out, times, clus, chans, max_wf=max_wf, chunksize_samples=chunk, n_jobs=int(rng.integers(1, 4)), preprocess_steps=[], seed=case["seed"])
+                res.count("extractions")
+                sr = spikeglx.Reader(b)
+                table = judge_output(res, out, sr, rec, times, clus, chans, max_wf, label)
+                sr.close()
+                iw = table["index_within_clusters"].to_numpy()[table["cluster"].to_numpy() == 7]
+                res.check(iw.size == t_big.size and np.array_equal(iw, np.arange(iw.size)), "table:index_within_clusters:large-unit",
+                          f"{label}: index_within_clusters of unit 7 is not 0..{t_big.size - 1} (first departure at row {int(np.argmax(iw != np.arange(iw.size))) if iw.size else '?'}: "
+                          f"{iw[int(np.argmax(iw != np.arange(iw.size)))] if iw.size else '?'})", counter="large_units_checked")
+                ld = WE.WaveformsLoader(out)
+                tr = np.load(out / "waveforms.traces.npy", mmap_mode="r")
+                rows7 = np.flatnonzero(table["cluster"].to_numpy() == 7)
+                for want_i in (0, 255, 32767, 32768, 33000, t_big.size - 1):
+                    wfs, info, ch = ld.load_waveforms(labels=[7], indices=[want_i])
+                    okl = wfs.shape[0] == 1 and np.array_equal(wfs[0], np.asarray(tr[rows7[want_i]]), equal_nan=True)
+                    res.check(okl, "loader:by-index:large-unit", f"{label}: load_waveforms(labels=[7], indices=[{want_i}]) returns {wfs.shape[0]} waveforms" + ("" if wfs.shape[0] != 1 else " (not the saved row)"))
+            except Exception as e:
+                res.exception("extract:exception:large-unit", e, label)
+            res.sig = f"large-unit-{case['seed']}"
+            res.nontrivial = True
         elif cls == "loky":
             chunk = int(rng.choice([500, 1000, 3000]))
             max_wf = int(rng.choice([4, 16]))
